@@ -76,6 +76,11 @@ def run(ctx):
     th = 2 * np.pi * np.arange(K) / K
     rho, theta = np.meshgrid(nodes, th, indexing='ij')
     ones = np.ones(rho.shape)
+    # the SAME caller-owned coordinate arrays are used for every call, alternating a partial mask with the full one:
+    # a mode at supplied coordinates must not depend on earlier calls, and the caller's arrays must stay as they are
+    part = ones.copy()
+    part[::2, 1::3] = 0
+    rho0, theta0 = rho.copy(), theta.copy()
     for j in range(1, JMAX + 1):
         n, m, nsq = table[j - 1]
         rad = np.array([float(sp.rf(x)) for x in exp[1]['vals'][j - 1]])
@@ -83,16 +88,20 @@ def run(ctx):
         base = rad[:, None] * az[None, :]
         for normalize in (True, False):
             e = base * (math.sqrt(nsq) if normalize else 1.0)
+            zp = np.asarray(lentil.zernike(part, j, normalize=normalize, rho=rho, theta=theta), dtype=float)
             z = np.asarray(lentil.zernike(ones, j, normalize=normalize, rho=rho, theta=theta), dtype=float)
             ctx.case(('value', j, normalize))
-            ok = np.allclose(z, e, rtol=0, atol=1e-9 * (1 + np.abs(e).max()))
+            ok = np.allclose(z, e, rtol=0, atol=1e-9 * (1 + np.abs(e).max())) and np.allclose(zp, e * part, rtol=0, atol=1e-9 * (1 + np.abs(e).max()))
             if not ok and m < 0:
-                ok = np.allclose(z, -e, rtol=0, atol=1e-9 * (1 + np.abs(e).max()))       # sign of the sine modes is an open convention
+                ok = np.allclose(z, -e, rtol=0, atol=1e-9 * (1 + np.abs(e).max())) and \
+                    np.allclose(zp, -e * part, rtol=0, atol=1e-9 * (1 + np.abs(e).max()))       # sign of the sine modes is an open convention
             if not ok:
                 ctx.violation({'kind': 'mode-value', 'j': j if j <= 15 else 'high', 'n': n, 'normalize': normalize},
                               {'j': j, 'n_m': [n, m], 'max_abs_error': float(np.abs(np.abs(z) - np.abs(e)).max())}, case=None)
             if not normalize and np.abs(z).max() > 1 + 1e-12:
                 ctx.violation({'kind': 'unnormalised-exceeds-1', 'n': n}, {'j': j, 'max': float(np.abs(z).max())}, case=None)
+    if not (np.array_equal(rho, rho0) and np.array_equal(theta, theta0)):
+        ctx.violation({'kind': 'caller-coordinates-modified'}, {}, case=None)
     # ---- 3. orthonormality over the unit disk by exact quadrature (numeric leaf) -----------------------------------------------
     gl_x, gl_w = np.polynomial.legendre.leggauss(20)
     r_nodes = 0.5 * (gl_x + 1)
@@ -134,9 +143,18 @@ def run(ctx):
             z1 = lentil.zernike(mask, j)
             if np.any(z1[mask == 0] != 0):
                 ctx.violation({'kind': 'nonzero-outside-mask'}, {'mask': c['mask'], 'j': j}, case=None)
-            for variant in (mask * 5, mask.astype(bool), mask.astype(float) * 0.25):
+            wts = np.random.default_rng(j + c['id']).uniform(0.2, 3.0, size=mask.shape)
+            for variant in (mask * 5, mask.astype(bool), mask.astype(float) * 0.25, mask * wts):
                 if not np.allclose(lentil.zernike(variant, j), z1, rtol=0, atol=1e-12):
-                    ctx.violation({'kind': 'depends-on-mask-values'}, {'mask': c['mask'], 'j': j}, case=None)
+                    ctx.violation({'kind': 'depends-on-mask-values', 'via': 'zernike'}, {'mask': c['mask'], 'j': j}, case=None)
+                    break
+            # ... also through the functions that build several modes at once
+            b1 = lentil.zernike_basis(mask, [j, 2, 5])
+            cz1 = lentil.zernike_compose(mask, [0.5, -1.0, 0.25, 2.0])
+            for variant in (mask * wts, mask.astype(float) * 0.25):
+                if not np.allclose(lentil.zernike_basis(variant, [j, 2, 5]), b1, rtol=0, atol=1e-12) or \
+                        not np.allclose(lentil.zernike_compose(variant, [0.5, -1.0, 0.25, 2.0]), cz1, rtol=0, atol=1e-12):
+                    ctx.violation({'kind': 'depends-on-mask-values', 'via': 'basis/compose'}, {'mask': c['mask'], 'j': j}, case=None)
                     break
     ctx.traces += len(cases) + 2 * JMAX
     ctx.extra.update({'noll_indices_compared': JMAX, 'masks_for_default_coordinates': len(masks), 'orthonormality_modes': JO,
